@@ -144,6 +144,7 @@ struct OutStream {
   bool failed = false;
   int fail_errno = 0;
   long at = -1;  // >= 0: write position inside the file (fdopen on a descriptor); -1: append (fopen "w" truncated it)
+  int fd_index = -1;  // the descriptor under the stream, once fileno() asked for it; released by fclose
 };
 static void out_store(OutStream *os, const char *buf, size_t take);
 
@@ -1276,13 +1277,18 @@ extern "C" int __wrap_fileno(FILE *f) {
   if (f == G.sim_out) return 1;
   if (f == G.sim_err) return 2;
   auto ot = G.ostreams.find(f);
-  if (ot != G.ostreams.end() && ot->second->file >= 0) {
-    SimState::Fd fd;
-    fd.open = true;
-    fd.file = ot->second->file;
-    fd.writable = true;
-    G.fds.push_back(fd);
-    return fd_of_index((int)G.fds.size() - 1);
+  if (ot != G.ostreams.end()) {
+    OutStream *os = ot->second;
+    if (os->fd_index < 0) {  // the one descriptor this stream has: the same number every time
+      SimState::Fd fd;
+      fd.open = true;
+      fd.file = os->file;
+      fd.writable = true;
+      fd.to_stdout = os->file < 0;
+      G.fds.push_back(fd);
+      os->fd_index = (int)G.fds.size() - 1;
+    }
+    return fd_of_index(os->fd_index);
   }
   return __real_fileno(f);
 }
@@ -1649,6 +1655,13 @@ extern "C" int __wrap_fclose(FILE *f) {
     return __real_fclose(f);
   }
   const EnvAns *a = answer(K_FCLOSE);
+  {
+    auto ot = G.ostreams.find(f);
+    if (ot != G.ostreams.end() && ot->second->fd_index >= 0 && ot->second->fd_index < (int)G.fds.size()) {
+      flock_release(ot->second->fd_index);
+      G.fds[ot->second->fd_index].open = false;  // closing the stream closes its descriptor
+    }
+  }
   bool known = G.ostreams.erase(f) > 0 || G.istreams.erase(f) > 0;
   if (!known && f != nullptr && f != stdout && f != stderr && f != stdin) sim_reject("fclose: stream was not opened by fopen");
   int r = __real_fclose(f);
